@@ -208,6 +208,9 @@ defop("assert_range", lambda ns, x, lo, hi: x.assert_range(lo, hi), ["IF", "Ii",
 defop("to_bits", lambda ns, x: x.to_bits(), ["I"], lambda a, cfg, ts: _nonneg(a[0], cfg["b"]))
 defop("to_bits_n", lambda ns, x, n: x.to_bits(n), ["I", "i"], lambda a, cfg, ts: _nonneg(a[0], a[1]),
       params={1: ("k", 0, 6)})
+defop("declbits", lambda ns, a, b, c: ns.rt.LinComb.from_bits([ns.bo.LinCombBool(a), ns.bo.LinCombBool(b), ns.bo.LinCombBool(c)]),
+      ["I", "I", "I"], lambda a, cfg, ts: all(v in (0, 1) for v in a), weight=0.3)
+defop("blist", lambda ns, a, b, c: [a, b, c], ["B", "B", "B"], weight=0.4)
 defop("from_bits", lambda ns, l: ns.rt.LinComb.from_bits(l) if len(l) else ns.rt.LinComb.ZERO, ["L"])
 defop("bit", lambda ns, l, k: l[k % len(l)], ["L", "i"], lambda a, cfg, ts: len(a[0]) > 0, params={1: ("k", 0, 40)})
 defop("val", lambda ns, x: x.val(), ["IBF"], weight=0.5)
@@ -502,7 +505,14 @@ class Gen:
         if safe:
             ivals = st.integers(0, min((1 << b) - 1, 6))
         if t == "I":
-            stmt = ["in", draw(st.sampled_from(["priv", "priv", "pub"])), "I", draw(ivals)]
+            v = draw(ivals)
+            if not safe and draw(st.integers(0, 13)) == 0:
+                # a value congruent (mod p) to an existing one but different as an integer, or at the prime itself
+                olds = [m.refval(i) for i, tt in enumerate(m.types) if tt == "I"]
+                base = draw(st.sampled_from(olds)) if olds and draw(st.booleans()) else draw(st.sampled_from([0, 1, -1, -8]))
+                v = base + draw(st.sampled_from([1, -1, 2])) * m.p
+                self.labels.add("value:congruent-mod-p")
+            stmt = ["in", draw(st.sampled_from(["priv", "priv", "pub"])), "I", v]
         elif t == "B":
             stmt = ["in", draw(st.sampled_from(["priv", "priv", "pub"])), "B", draw(st.integers(0, 1))]
         elif t == "F":
